@@ -150,6 +150,47 @@ def callbacks (e : Event) (c : Chain) : List Mail :=
 def callbacksOld (e : Event) (c : Chain) : List Mail :=
   (dispatchOld e c).filter (taskInvokesOld e)
 
+/-! ### listeners and masks are mutable state: histories of set_listener steps and status changes -/
+
+/-- `set_listener` replaces presence and mask of one level together (writer_methods.rs:86-88 and its siblings) -/
+def Chain.set (c : Chain) (l : Level) (s : Slot) : Chain :=
+  match l with
+  | .entity => { c with entity := s }
+  | .group => { c with group := s }
+  | .participant => { c with participant := s }
+
+/-- seeded variant C33_d: removing the listener (`None`) only clears the sender, the old mask stays in force -/
+def Chain.setSeeded (c : Chain) (l : Level) (s : Slot) : Chain :=
+  if s.installed then c.set l s else c.set l { installed := false, mask := (c.slot l).mask }
+
+inductive Step
+  | setListener (l : Level) (installed : Bool) (mask : List Status)
+  | change (e : Event)
+deriving Repr
+
+/-- the callbacks of every status change of a history, each under the configuration in force at THAT moment -/
+def runHist (c : Chain) : List Step → List (List Mail)
+  | [] => []
+  | .setListener l i m :: r => runHist (c.set l { installed := i, mask := m }) r
+  | .change e :: r => callbacks e c :: runHist c r
+
+def runHistSeeded (c : Chain) : List Step → List (List Mail)
+  | [] => []
+  | .setListener l i m :: r => runHistSeeded (c.setSeeded l { installed := i, mask := m }) r
+  | .change e :: r => callbacks e c :: runHistSeeded c r
+
+/-- one processing pass of process_user_defined_received_cache_changes that finds `n` new-data changes of one
+    subscriber: the masks are tested for EVERY change (communication_methods.rs:299-322) -/
+def passData : Nat → Chain → List Mail
+  | 0, _ => []
+  | n + 1, c => callbacks .dataArrived c ++ passData n c
+
+/-- seeded variant C33_c: data-on-readers "coalesced" to once per pass by a flag that replaces the mask test -/
+def passDataSeeded (pending : Bool) : Nat → Chain → List Mail
+  | 0, _ => []
+  | n + 1, c =>
+    (if pending then sendTo c .group .dataOnReaders else chain3 .dataAvailable c) ++ passDataSeeded false n c
+
 /-! ### a small world for the differential run (scenario sub-language of engine `listen`)
 
 Entities are named; every endpoint knows its group and participant; the world predicts which status changes the
@@ -190,6 +231,10 @@ structure World where
   persist : List (Event × String) := []
   /-- virtual time of the last worker iteration (API call or 50 ms poke) -/
   lastIter : Nat := 0
+  /-- `coalesce-next 1 DATA user` is armed: the next two user DATA datagrams travel as ONE RTPS message -/
+  coalesce : Bool := false
+  /-- the writer whose first datagram is waiting for its partner -/
+  stashed : Option String := none
 deriving Repr
 
 def World.find (w : World) (n : String) : Option Ent := w.ents.find? (fun e => e.name == n)
@@ -366,6 +411,26 @@ def deliver (w : World) (wrn : String) : World :=
           | none => false
         if full then raise (World.update w rd) .sampleRejected rd
         else raise (World.update w { rd with stored := rd.stored + 1 }) .dataArrived rd) w
+
+/-- `set_listener(listener, mask)` on any entity (writer_methods.rs set_listener_data_writer and its five siblings):
+    listener presence and mask are replaced TOGETHER, also when the listener is removed (`None`) -/
+def setListener (w : World) (n : String) (installed : Bool) (mask : List Status) : World :=
+  match w.find n with
+  | some e => World.update w { e with slot := { installed := installed, mask := mask } }
+  | none => w
+
+/-- a `write` while datagram coalescing is armed: the first sample waits (only the writer's own deadline stamp moves);
+    the second one arrives together with it in ONE message, so ONE processing pass of
+    process_user_defined_received_cache_changes sees two new-data changes — each is dispatched on its own -/
+def writeOp (w : World) (wrn : String) : World :=
+  if w.coalesce then
+    match w.stashed with
+    | none =>
+      match w.find wrn with
+      | some wr => { (World.update w { wr with lastWrite := some w.now }) with stashed := some wrn }
+      | none => w
+    | some _ => { (deliver (deliver w wrn) wrn) with coalesce := false, stashed := none }
+  else deliver w wrn
 
 /-- deadline events in the window (now, now+dt]: which endpoints miss at least once -/
 def missedIn (e : Ent) (now dt : Nat) : Bool :=
